@@ -38,7 +38,7 @@ MODELLED = ["addzero", "constfold", "cse", "cjump", "delunused", "las", "clean"]
 SINGLE = MODELLED + ["mem2reg", "tailcall"]
 LEVELS = ["O0", "O1", "O2", "Os"]
 # pass -> Lean-verified validator that every real output of the pass goes through (Model.OptCheck)
-VALIDATED = {"delunused": "align"}
+VALIDATED = {"delunused": ["align"], "cse": ["subst"], "constfold": ["align", "subst"]}
 
 
 def pass_object(name):
@@ -139,6 +139,41 @@ CORPUS = [
     ("cse-signed-zero-consts", K("k13", "(func f global f64 e (params (x f64)) (blocks (block e "
      "(fconst %pz f64 0) (fconst %nz f64 9223372036854775808) (binop %a f64 mul %x %pz) (binop %b f64 add %a %nz) (ret %b))))"),
      {"f": [[1.0], [-1.0]]}),
+    # an unused result does not make a call dead
+    ("delunused-unused-call", K("k14", "(func f global i32 e (params (x i32)) (blocks (block e "
+     "(fcall %r i32 @ext %x) (fcall %q i32 @g %x) (ret %x)))) (func g local i32 e (params (a i32)) (blocks (block e "
+     "(store i32 %a @gv) (ret %a))))", vars_=" (var gv global 4 4)", externs=" (xfunc ext i32 (i32))"),
+     {"f": [[3], [-4]]}),
+    # two different SSA addresses of the same slot: the second store must not be skipped
+    ("las-aliasing-stores", K("k15", "(func f global i32 e (params (a i32) (b i32)) (blocks (block e "
+     "(alloc %s 4 4) (addrof %p1 %s) (addrof %p2 %s) (store i32 %a %p1) (store i32 %b %p2) (load %r i32 %p1) (ret %r))))"),
+     {"f": [[1, 2], [7, -9]]}),
+    # constant conditions on the boundary of every comparison, signed and unsigned
+    ("cjump-boundaries", K("k16", "(func f global i32 e (params (x i32)) (blocks "
+     "(block e (const %a i32 5) (const %b i32 5) (const %m i32 -1) (const %u u32 4294967295) (const %w u32 1) "
+     "(const %one i32 1) (const %two i32 2) (const %four i32 4) (const %eight i32 8) (cjump %a le %b l1 n1)) "
+     "(block n1 (binop %x1 i32 add %x %one) (jump j1)) (block l1 (jump j1)) "
+     "(block j1 (phi %y1 i32 (n1 %x1) (l1 %x)) (cjump %a ge %b l2 n2)) "
+     "(block n2 (binop %x2 i32 add %y1 %two) (jump j2)) (block l2 (jump j2)) "
+     "(block j2 (phi %y2 i32 (n2 %x2) (l2 %y1)) (cjump %m lt %a l3 n3)) "
+     "(block n3 (binop %x3 i32 add %y2 %four) (jump j3)) (block l3 (jump j3)) "
+     "(block j3 (phi %y3 i32 (n3 %x3) (l3 %y2)) (cjump %u gt %w l4 n4)) "
+     "(block n4 (binop %x4 i32 add %y3 %eight) (jump j4)) (block l4 (jump j4)) "
+     "(block j4 (phi %y4 i32 (n4 %x4) (l4 %y3)) (cjump %a lt %b n5 l5)) "
+     "(block n5 (binop %x5 i32 mul %y4 %eight) (jump j5)) (block l5 (jump j5)) "
+     "(block j5 (phi %y5 i32 (n5 %x5) (l5 %y4)) (cjump %a ne %b n6 l6)) "
+     "(block n6 (binop %x6 i32 mul %y5 %four) (jump j6)) (block l6 (jump j6)) "
+     "(block j6 (phi %y6 i32 (n6 %x6) (l6 %y5)) (ret %y6))))"),
+     {"f": [[3], [-4]]}),
+    # constant expressions with negative operands of >> and %, shifts at the edge of the width
+    ("constfold-signs", K("k17", "(func f global i32 e (params (x i32)) (blocks (block e "
+     "(const %m8 i32 -8) (const %c1 i32 1) (const %c31 i32 31) (const %c3 i32 3) (const %m7 i32 -7) (const %min i32 -2147483648) "
+     "(binop %s1 i32 shr %m8 %c1) (binop %s2 i32 shr %min %c31) (binop %r1 i32 rem %m7 %c3) (binop %l1 i32 shl %c3 %c31) "
+     "(binop %t1 i32 add %x %s1) (binop %t2 i32 add %t1 %s2) (binop %t3 i32 add %t2 %r1) (binop %t4 i32 xor %t3 %l1) (ret %t4)))) "
+     "(func g global u8 e (params (x u8)) (blocks (block e (const %a u8 200) (const %b u8 100) (const %c u8 3) "
+     "(binop %s u8 add %a %b) (binop %h u8 shr %a %c) (binop %m u8 mul %a %c) (binop %t1 u8 add %x %s) (binop %t2 u8 add %t1 %h) "
+     "(binop %t3 u8 xor %t2 %m) (ret %t3))))"),
+     {"f": [[3], [-4]], "g": [[1], [255]]}),
     # self tail call
     ("tailcall-sum", K("k7", "(func sum global i32 e (params (n i32) (acc i32)) (blocks "
      "(block e (const %z i32 0) (cjump %n le %z done rec)) (block done (ret %acc)) "
@@ -228,7 +263,7 @@ def gen_texts(ctx, n):
         if mode == 1:
             cnt = T.pessimize(ctx.rng, tree)
         elif mode == 2:
-            cnt = T.pessimize(ctx.rng, tree, addzero=5, cjump=3, demote=4, demote_phi=2)
+            cnt = T.pessimize(ctx.rng, tree, addzero=5, cjump=4, demote=4, demote_phi=2, constexpr=6)
         else:
             cnt = {}
         for kk, v in cnt.items():
@@ -307,8 +342,13 @@ def process(ctx, tag, text, only, fixed, pipelines):
             lines.append("load " + text)
             lines.append("pass " + p)
         if after is not None and p in VALIDATED:
-            v["check_at"] = len(lines) + 3
-            lines += ["load " + text, "keep", "load " + after, "check " + VALIDATED[p]]
+            stages = VALIDATED[p]
+            mids = [after] if len(stages) == 1 else [mid_module(text, after), after]
+            v["check_at"] = []
+            lines.append("load " + text)
+            for kind, mtext in zip(stages, mids):
+                lines += ["keep", "load " + mtext, "check " + kind]
+                v["check_at"].append(len(lines) - 1)
         if after is not None:
             v["after_at"] = len(lines)
             lines += ["load " + after] + runs
@@ -353,14 +393,17 @@ def evaluate(ctx, plan, replies):
                     ctx.disagree(f"{p}: model output differs from the real pass (alpha-normal forms)", case0,
                                  _first_diff(ci, cm), _first_diff(cm, ci))
         if v["check_at"] is not None:
-            cr = replies[v["check_at"]]
+            crs = [replies[k] for k in v["check_at"]]
             ctx.count("eval_validator")
-            if cr == "ok 1":
+            if all(cr == "ok 1" for cr in crs):
                 ctx.count(f"validated_{p}")
+                if v["after"] != text:
+                    ctx.count(f"validated_changed_{p}")
             elif outside_validator_class(p, text, v["after"]):
                 ctx.count(f"validator_not_applicable_{p}")
             else:
-                ctx.disagree(f"{p}: the Lean validator `{VALIDATED[p]}` rejects the real pass output", case0, "accept", cr)
+                ctx.disagree(f"{p}: the Lean validator {'+'.join(VALIDATED[p])} rejects the real pass output", case0,
+                             "accept", " ".join(crs))
         if v["after_at"] is None:
             continue
         at = v["after_at"]
@@ -385,6 +428,25 @@ def evaluate(ctx, plan, replies):
     ctx.sample({"module": tag, "pipelines": len(plan["variants"]), "runs": n})
 
 
+def mid_module(before, after):
+    """`before` plus the constants that are new in `after`, inserted where `after` has them (constant folding =
+    insertion of constants [validator align] followed by replacement of operands [validator subst])"""
+    tb, ta = T.parse(before), T.parse(after)
+    for fb, fa in zip(T.funcs_of(tb), T.funcs_of(ta)):
+        have = {T.dst_of(i) for b in T.blocks_of(fb) for i in b[2:] if T.dst_of(i)}
+        for bb, ba in zip(T.blocks_of(fb), T.blocks_of(fa)):
+            out, k = [], 2
+            for i in ba[2:]:
+                if i[0] in ("const", "fconst") and T.dst_of(i) not in have:
+                    out.append(i)
+                elif k < len(bb):
+                    out.append(bb[k])
+                    k += 1
+            out += bb[k:]
+            bb[2:] = out
+    return T.show(tb)
+
+
 def outside_validator_class(p, before, after):
     """rewrites the validator of pass `p` does not claim to cover (stated in LEVEL_NOTE)"""
     if p == "delunused":
@@ -392,6 +454,24 @@ def outside_validator_class(p, before, after):
         kinds = lambda t: sorted(i[0] for f in T.funcs_of(T.parse(t)) for b in T.blocks_of(f) for i in b[2:]
                                  if i[0] in ("alloc", "literal"))
         return kinds(before) != kinds(after)
+    if p == "constfold":
+        # not covered by `checkSubst`: the chain rewrite (y+c1)+c2 -> y+c3 (an operand becomes a value that
+        # existed before), pointer / float constants, casts from non-integers
+        tb, ta = T.parse(before), T.parse(after)
+        for fb, fa in zip(T.funcs_of(tb), T.funcs_of(ta)):
+            old = {T.dst_of(i): i for b in T.blocks_of(fb) for i in b[2:] if T.dst_of(i)}
+            pars = {q[0] for q in T.params_of(fb)}
+            for b in T.blocks_of(fa):
+                for i in b[2:]:
+                    d = T.dst_of(i)
+                    if d is not None and d not in old:
+                        if i[0] != "const" or i[2] not in T.INT_TYPES:
+                            return True
+                    elif d is not None and i != old[d]:
+                        for (c, j), (c0, j0) in zip(T.operand_slots(i), T.operand_slots(old[d])):
+                            if c[j] != c0[j0] and (c[j][1:] in old or c[j][1:] in pars or not c[j].startswith("%")):
+                                return True
+        return False
     return False
 
 
